@@ -430,7 +430,12 @@ def gen_C05(rng, tier, diag=None):
             idxs = range(1 << rb)
             aligns = list(range(W))
             for idx in idxs:
-                als = aligns if (not quick) else [rng.choice(aligns)]
+                if quick:
+                    als = [rng.choice(aligns)]
+                elif W <= 16:
+                    als = aligns                      # thorough: every alignment on the small words
+                else:
+                    als = sorted(set([0, W - 1] + rng.sample(aligns, 6)))
                 if quick and idx < 32:
                     als = sorted(set(als + [0, W - 1]))
                 for al in als:
